@@ -18,6 +18,9 @@ const FRESH: &[&str] = &[
     "pragmatic", "OPENQASMx", "s1", "dtx", "im_", "π2", "Δq", "变量", "inv2", "ns_", "measured", "e3", "xF", "qubits", "_", "__a", "gat", "letter", "dimension", "O",
     // keyword / directive look-alikes followed by a digit or an underscore, leading underscores, unit look-alikes
     "pragma2", "pragma7x", "pragma_1", "_q", "_tmp", "void1", "u", "μs", "µ", "gate1", "def_", "if0", "include2", "b0", "o7", "x0F", "e", "E1", "im2",
+    // characters that continue an identifier without being able to start one (combining mark of an NFD
+    // spelling, non-ASCII digits, an Indic vowel sign, the middle dot, the undertie)
+    "re\u{301}g", "count\u{ff11}", "\u{915}\u{93f}", "col\u{b7}l", "a\u{203f}b", "x\u{663}",
 ];
 
 fn is_reserved(n: &str) -> bool {
@@ -299,6 +302,77 @@ fn tree_skeleton(text: &str) -> (Vec<String>, usize) {
     (out, p.errors().len())
 }
 
+/// The same text through the string and the file entry points with the same search path: part of the
+/// program sits in an include file that only the search path reaches (main.qasm lives elsewhere).
+fn entry_point_case(seed: u64, obs: &mut Obs) {
+    use oq3_semantics::syntax_to_semantics::{parse_source_file_with_search, parse_source_string_with_path_search};
+    let mut r = Rng::new(seed);
+    let prog = {
+        let mut g = MG::new(&mut r, GenCfg { max_stmts: 6, ..GenCfg::semantic() });
+        g.program()
+    };
+    let lay = sem_layout(seed, seed % 2 == 0);
+    let j = 1 + r.usize(prog.len().max(1));
+    let j = j.min(prog.len());
+    let inner = print_program(&prog[..j], &lay).text;
+    let rest = print_program(&prog[j..], &lay).text;
+    let root = scratch_dir("c17");
+    let (libdir, maindir) = (root.join("lib"), root.join("work"));
+    let _ = std::fs::create_dir_all(&libdir);
+    let _ = std::fs::create_dir_all(&maindir);
+    // a nested include as well: lib/first.inc includes lib/second.inc
+    let k = r.usize(j + 1).min(j);
+    let second = print_program(&prog[..k], &lay).text;
+    let first_rest = print_program(&prog[k..j], &lay).text;
+    let _ = inner;
+    let _ = std::fs::write(libdir.join("second.inc"), &second);
+    let _ = std::fs::write(libdir.join("first.inc"), format!("include \"second.inc\";\n{first_rest}"));
+    let main_text = format!("include \"first.inc\";\n{rest}");
+    let main_path = maindir.join("main.qasm");
+    let _ = std::fs::write(&main_path, &main_text);
+    obs.fp.str(&main_text);
+    obs.fp.str(&second);
+    let flat = |l: &oq3_semantics::semantic_error::SemanticErrorList| -> Vec<String> {
+        fn go(l: &oq3_semantics::semantic_error::SemanticErrorList, out: &mut Vec<String>) {
+            out.extend(l.iter().map(|e| format!("{:?}", e.kind())));
+            for i in l.include_errors() {
+                go(i, out);
+            }
+        }
+        let mut v = Vec::new();
+        go(l, &mut v);
+        v
+    };
+    let (ld, mt, mp) = (libdir.clone(), main_text.clone(), main_path.clone());
+    let r1 = guard(move || {
+        let a = parse_source_string_with_path_search(&mt, Some("main.qasm"), Some(&[ld.clone()]));
+        let b = parse_source_file_with_search(&mp, Some(&[ld.clone()]));
+        let (ka, kb) = (flat(a.semantic_errors()), flat(b.semantic_errors()));
+        (a.any_syntax_errors(), b.any_syntax_errors(), a.program() == b.program(), a.symbol_table() == b.symbol_table(), ka, kb, a.program().stmts().len())
+    });
+    let _ = std::fs::remove_dir_all(&root);
+    match r1 {
+        Err(p) => obs.inconclusive(format!("analysis panicked (C03): {}", p.site())),
+        Ok((sa, sb, peq, teq, ka, kb, n)) => {
+            if sa || sb {
+                if sa != sb {
+                    obs.violate("entry-points/syntax-error-status-differs", format!("{main_text:?}: string entry {sa}, file entry {sb}"));
+                } else {
+                    obs.inconclusive("rejected by the parser (C04)");
+                }
+                return;
+            }
+            if !peq || !teq || ka != kb {
+                let what = if ka != kb { "diagnostics" } else if !teq { "symbols" } else { "graph" };
+                obs.violate(format!("entry-points/string-vs-file-with-search-path/{what}"), format!("main {main_text:?} (lib/first.inc includes lib/second.inc {second:?}): program equal {peq}, symbols equal {teq}, diagnostics {ka:?} vs {kb:?}"));
+            }
+            obs.class("entry-points-agree");
+            obs.note = format!("{n} statements: string and file entry points with the same search path agree");
+            obs.done(n >= 1);
+        }
+    }
+}
+
 fn token_relayout_case(seed: u64, obs: &mut Obs) {
     let mut r = Rng::new(seed);
     let al = tok_alphabet();
@@ -561,6 +635,7 @@ impl Property for C17 {
         vec![
             Stream::new("random-programs", tier.pick(6_000, 300_000), false, move |i| format!("rand:{}", mix(&[seed, 0xC17, 1, i]))),
             Stream::new("random-programs-with-name-collisions", tier.pick(4_000, 200_000), false, move |i| format!("coll:{}", mix(&[seed, 0xC17, 2, i]))),
+            Stream::new("string-and-file-entry-points-with-a-search-path", tier.pick(1_500, 60_000), false, move |i| format!("entry:{}", mix(&[seed, 0xC17, 4, i]))),
             Stream::new("token-sequences-under-two-trivia-layouts", tier.pick(150_000, 5_000_000), false, move |i| format!("tok:{}", mix(&[seed, 0xC17, 3, i]))),
         ]
     }
@@ -569,6 +644,10 @@ impl Property for C17 {
         let seed: u64 = parts.get(1).and_then(|x| x.parse().ok()).unwrap_or(0);
         if parts[0] == "tok" {
             token_relayout_case(seed, obs);
+            return;
+        }
+        if parts[0] == "entry" {
+            entry_point_case(seed, obs);
             return;
         }
         let mut r = Rng::new(seed);
@@ -630,6 +709,6 @@ impl Property for C17 {
         }
     }
     fn mandatory_classes(&self, _tier: Tier) -> Vec<&'static str> {
-        vec!["relayout", "rename", "append", "token-relayout"]
+        vec!["relayout", "rename", "append", "token-relayout", "entry-points-agree"]
     }
 }
